@@ -159,7 +159,9 @@ func SmallOrBig(r *rng.R, pBig int) *big.Int {
 			return r.Big(65)
 		}
 	}
-	switch r.Intn(10) {
+	switch r.Intn(11) {
+	case 10: // mid-size: 20..62 bits
+		return r.Big(20 + r.Intn(43))
 	case 0:
 		return big.NewInt(0)
 	case 1:
@@ -297,7 +299,7 @@ func (g *lgen) portionLit(p *big.Rat) Expr {
 	// write p as ratio or (when exact) as a percentage
 	if g.r.Chance(1, 3) {
 		// p = x/100^k ?
-		for dec := 0; dec <= 3; dec++ {
+		for dec := 0; dec <= 12; dec++ {
 			den := new(big.Int).Exp(big.NewInt(10), big.NewInt(int64(2+dec)), nil)
 			num := new(big.Rat).Mul(p, new(big.Rat).SetInt(den))
 			if num.IsInt() {
@@ -329,10 +331,14 @@ func (g *lgen) portionLit(p *big.Rat) Expr {
 func (g *lgen) portions(k int) []Allot {
 	dens := []int64{2, 3, 4, 5, 6, 7, 8, 10, 12, 100}
 	den := dens[g.r.Intn(len(dens))]
+	if g.r.Chance(1, 12) {
+		// many-digit portions (long-decimal percentages, ratios with big terms)
+		den = []int64{10000000000, 3000000019, 99999999977, 1000000000000}[g.r.Intn(4)]
+	}
 	parts := make([]int64, k)
 	left := den
 	for i := 0; i < k-1; i++ {
-		parts[i] = int64(g.r.Intn(int(left) + 1))
+		parts[i] = int64(g.r.U64() % uint64(left+1))
 		if g.r.Chance(1, 8) {
 			parts[i] = 0
 		}
